@@ -726,7 +726,7 @@ func (x *Exec) execStmt(st *State, s ast.Stmt) *State {
 	if st != nil && x.spec == 0 && x.noSafety == 0 {
 		if c := x.eng.cf.Contracts[x.qual]; c != nil && len(c.GhostBefore) > 0 && !x.infeasible(st) {
 			switch s.(type) {
-			case *ast.AssignStmt, *ast.ExprStmt, *ast.IncDecStmt, *ast.DeclStmt, *ast.ReturnStmt, *ast.BranchStmt, *ast.SendStmt:
+			case *ast.AssignStmt, *ast.ExprStmt, *ast.IncDecStmt, *ast.DeclStmt, *ast.ReturnStmt, *ast.BranchStmt, *ast.SendStmt, *ast.ForStmt, *ast.RangeStmt, *ast.IfStmt:
 				txt := x.eng.srcText(s)
 				for _, ga := range c.GhostBefore {
 					if strings.HasPrefix(txt, ga.Anchor) {
@@ -768,7 +768,8 @@ func (x *Exec) execStmt(st *State, s ast.Stmt) *State {
 		}
 		if c != nil && len(c.AssertAfter) > 0 && !x.infeasible(out) {
 			switch s.(type) {
-			case *ast.AssignStmt, *ast.ExprStmt, *ast.IncDecStmt, *ast.DeclStmt, *ast.SendStmt:
+			case *ast.AssignStmt, *ast.ExprStmt, *ast.IncDecStmt, *ast.DeclStmt, *ast.SendStmt, *ast.RangeStmt, *ast.ForStmt:
+				// a loop statement as anchor: the clause is checked where the loop is left (exit or break)
 				txt := x.eng.srcText(s)
 				for _, aa := range c.AssertAfter {
 					if strings.HasPrefix(txt, aa.Anchor) {
